@@ -22,7 +22,7 @@ import json
 m=json.load(open("$SRC/$ID.meta.json"))
 m["confirmed"]={"worktree":"$W (scratch, removed)","demo_without_change_rc":$RC0,"demo_with_change_rc":$RC1,
  "tests_with_change":"""$TESTS""","command":"seed_confirm.sh $ID: git worktree add; demo; git apply patch.diff; pytest (codec/pandas tests deselected); demo",
- "demo_output_with_change":"""${OUT1:0:600}"""}
+ "demo_output_with_change":r"""${OUT1:0:600}"""}
 json.dump(m,open("$D/meta.json","w"),indent=1)
 PY
   echo "CONFIRMED -> $D"
